@@ -164,6 +164,9 @@ func runSuffix(s *Script, rec *Rec) {
 				return
 			}
 			e["cbs"] = cbs
+			// Segments may permute sa inside the segments it reports; the
+			// LCP table belongs to the caller
+			e["lcp_after"] = i32(lcpw)
 			rec.Emit(e)
 		default:
 			panic("lzdrive: suffix: unknown op " + name)
@@ -381,7 +384,7 @@ func genSegments(seed int64, n int, tier string) []Script {
 			if len(t) > 600 {
 				t = t[:600]
 			}
-			maxL := pickInt(r, 0, 1, 2, 3, 4, 8, 16, 273, 1<<20)
+			maxL := pickInt(r, 0, 1, 2, 3, 4, 8, 16, 273, 1<<20, 1<<31-1, 1<<31-2)
 			minL := pickInt(r, 0, 0, 1, 2, 3, maxL, maxL+1)
 			if minL > maxL && r.Intn(3) != 0 {
 				minL = maxL
